@@ -23,8 +23,10 @@ static CALL_MAX: AtomicUsize = AtomicUsize::new(0);
 static N_ALLOCS: AtomicU64 = AtomicU64::new(0);
 static SHARED_MAX: AtomicPtr<AtomicU64> = AtomicPtr::new(std::ptr::null_mut());
 
-/// Requests larger than this are refused while a region is active (8 GiB).
-pub const REFUSE_ABOVE: usize = 1 << 33;
+/// Requests larger than this are refused while a region is active
+/// (4 GiB + 64 KiB: the 2^31+-k and 2^32+-k length classes are still served,
+/// lazily, by the system allocator; anything larger aborts deterministically).
+pub const REFUSE_ABOVE: usize = (1 << 32) + (1 << 16);
 
 #[inline]
 fn note(size: usize) -> bool {
